@@ -1602,3 +1602,39 @@ func (c *Ctx) appendAtMostOneEvent(e Effect, fn, construct, pos string) {
 	}
 	c.bad(fn, construct, pos, "a batch of several events can be appended in place: one Write call is not one write(2) - on a full disk or at a file-size limit the kernel stores a prefix and the rest fails (or the process dies in between), so a complete first event of the batch (a claim without its state, an epic's tombstone without its child's) stays in the log of a command that failed")
 }
+
+// rewriteKeepsBytes (rule WR13, second audit): "all earlier events remain, in order, with unchanged content" is a
+// statement about the bytes of the log, for every file content. A rewrite that is meant to keep the history (the
+// append-by-rewrite used for a torn tail and for batches) keeps it byte for byte only if it copies the old file's
+// bytes; one that parses the old lines into Event values and marshals them again normalises whatever the three-field
+// struct does not carry - an unknown top-level member, a key damaged by a bit flip, invalid UTF-8. The temp writer the
+// prefix-preserving rewrite goes through is inspected: writing lines obtained from json.Marshal of Event values is the
+// re-marshalling form.
+func init() {
+	register(&Rule{ID: "WR13", Min: 0, Run: func(c *Ctx) { c.rewriteKeepsBytes() },
+		Doc: "history-kept-byte-for-byte: a rewrite that is meant to keep the history (append-by-rewrite for a torn tail and for batches) copies the old log's bytes; parsing the old lines into Event values and marshalling them again changes the content of earlier lines on any log that carries what the three-field struct does not (an unknown top-level member, a damaged key, invalid UTF-8)"})
+}
+
+func (c *Ctx) rewriteKeepsBytes() {
+	aea := c.ErgoFn("appendEventsAtomically")
+	wef := c.ErgoFn("writeEventsFile")
+	if aea == nil || wef == nil || aea.Blocks == nil || wef.Blocks == nil {
+		return
+	}
+	reaches := aea == wef || c.F.TransitiveCallees(aea)[wef]
+	if !reaches {
+		return
+	}
+	remarshal := ""
+	for _, g := range append([]*ssa.Function{wef}, c.unitOf(wef)...) {
+		for _, call := range callsNamed(g, "encoding/json.Marshal", "(*encoding/json.Encoder).Encode") {
+			for _, a := range call.Common().Args {
+				if mi, ok := a.(*ssa.MakeInterface); ok && namedTypeName(mi.X.Type()) == "ergo.Event" {
+					remarshal = c.Pos(call.Pos())
+				}
+			}
+		}
+	}
+	c.check(remarshal == "", c.Name(aea), "c:prefix-bytes-preserved", c.FnPos(aea), "the history-keeping rewrite copies the old log's bytes",
+		"the rewrite that is meant to keep the history writes the existing events back by marshalling them again (at "+remarshal+"), not by copying the old file's bytes: on a log that carries anything the Event struct does not (an unknown top-level member written by a newer version, a key or timestamp damaged by a bit flip) a claim, a multi-field set or a plan changes the content of earlier lines")
+}
